@@ -39,6 +39,7 @@ class Zone(BaseState):
         z.bottom = self.bottom
         z.trace = self.trace
         z.decisions = getattr(self, 'decisions', ())
+        z.flags = getattr(self, 'flags', frozenset())
         return z
 
     def ix(self, v):
